@@ -40,6 +40,9 @@ def entries(g):
     return sorted(set(ent))
 
 
+from ..symeval import Panic as SPanic_
+
+
 def eval_cover(ctx):
     """functions whose every abstract state is evaluated by a rule of this run with panics modelled (indexing, slicing, unwrap/expect,
     explicit panics, usize under/overflow): name suffix -> (kinds of site discharged, function returning None or the panicking state)"""
@@ -129,7 +132,17 @@ def eval_cover(ctx):
                 if res_[0] == "panic":
                     return "Op%s with function %s, block %s: %s" % (op_, "open" if st_[0] else "closed", "open" if st_[1] else "closed", res_[1])
         return None
-    table = {"Consumer>::consume_instruction": (("call",), loader_consume),
+    def asm_str():
+        from . import asmx
+        from ..tree import small_literals as _sl
+        k_ = max(_sl(ctx.rspirv.fn("rspirv::binary::assemble", "assemble_str")["body"]) | {0})
+        for n_ in range(0, max(10, 4 * (k_ + 1) + 2)):
+            try:
+                asmx.string_words(ctx, n_)
+            except SPanic_ as x:
+                return "assemble_str(%d bytes): %s" % (n_, x)
+        return None
+    table = {"Consumer>::consume_instruction": (("call",), loader_consume), "assemble::assemble_str": (("call",), asm_str),
              "ExtInstSetTracker::track": (("call",), ext_track), "disassemble::disas_ext_inst": (("call",), dis_ext),
              "Decoder::string": (("call", "assert"), dec("string")), "Decoder::words": (("call", "assert"), dec("words")),
              "Decoder::bit64": (("call",), dec("bit64")), "Decoder::word": (("call", "assert"), dec("id")),
